@@ -44,7 +44,9 @@ COMPONENTS = {
     "stub": ["init_popen_io (no real fd redirection)", "kernel pipes/processes (vsim)"],
 }
 
-INVALID = ["lambda", "closure", "global", "import_global", "wrong_first", "no_param", "decorated", "kwargs_with_string"]
+INVALID = ["lambda", "closure", "global", "import_global", "wrong_first", "no_param", "decorated", "kwargs_with_string",
+           "global_in_default", "global_in_kwonly_default", "global_decorator_same_function", "global_in_annotation",
+           "global_in_nested_def"]
 
 
 def gen_body(rng, label, form):
@@ -188,6 +190,11 @@ def invalid_callable(d, name, shape):
         "import_global": "import os\ndef body(channel):\n    channel.send(os.getpid())\n",
         "wrong_first": "def body(chan, a=1):\n    chan.send(a)\n",
         "no_param": "def body():\n    pass\n",
+        "global_in_default": "LIMIT = 3\ndef body(channel, n=LIMIT):\n    channel.send(n)\n",
+        "global_in_kwonly_default": "import os\ndef body(channel, *, sep=os.sep):\n    channel.send(sep)\n",
+        "global_decorator_same_function": "def register(f):\n    return f\n@register\ndef body(channel):\n    channel.send(1)\n",
+        "global_in_annotation": "class Chan:\n    pass\ndef body(channel: Chan):\n    channel.send(1)\n",
+        "global_in_nested_def": "helper = 5\ndef body(channel):\n    def inner():\n        return helper\n    channel.send(inner())\n",
         "decorated": "import functools\ndef deco(f):\n    @functools.wraps(f)\n    def w(channel):\n        return f(channel)\n    return w\n"
                      "@deco\ndef body(channel):\n    channel.send(1)\n",
     }[shape]
